@@ -127,3 +127,30 @@ mut("c09-hex-width-n13", "C09",
     ("src/operations.rs",
      "    for t in table.iter().rev() {\n        s.push_str(&format!(\"{:0width$x}\", t));\n    }",
      "    for (k, t) in table.iter().rev().enumerate() {\n        if k == 0 && table.len() >= 128 {\n            s.push_str(&format!(\"{:x}\", t));\n        } else {\n            s.push_str(&format!(\"{:0width$x}\", t));\n        }\n    }"))
+
+# ---------------------------------------------------------------- C08
+mut("c08-cmp-lsw-first-large", "C08",
+    "cmp compares least-significant word first for tables of more than 8 words",
+    ("src/operations.rs",
+     "    return table1.iter().rev().cmp(table2.iter().rev());",
+     "    if table1.len() > 8 {\n        return table1.iter().cmp(table2.iter());\n    }\n    return table1.iter().rev().cmp(table2.iter().rev());"))
+mut("c08-ord-lut-numvars-reversed", "C08",
+    "Ord for Lut orders larger variable counts first",
+    ("src/lut.rs",
+     "            return self.num_vars.cmp(&other.num_vars);",
+     "            return other.num_vars.cmp(&self.num_vars);"))
+mut("c08-next-drops-carry-beyond-word-2", "C08",
+    "next_inplace stops propagating the carry after the third word",
+    ("src/operations.rs",
+     "    for t in table {\n        *t = t.wrapping_add(1) & mask;\n        if *t != 0 {\n            return true;\n        }\n    }\n    false",
+     "    for (k, t) in table.iter_mut().enumerate() {\n        *t = t.wrapping_add(1) & mask;\n        if *t != 0 || k == 2 {\n            return true;\n        }\n    }\n    false"))
+mut("c08-next-revert-overflow-fix", "C08",
+    "next_inplace uses the unchecked + again (D6 comes back)",
+    ("src/operations.rs",
+     "        *t = t.wrapping_add(1) & mask;",
+     "        *t = (*t + 1) & mask;"))
+mut("c08-static-iter-ends-early", "C08",
+    "StaticLutIterator stops one item early (returns None when the increment wrapped before yielding the last table)",
+    ("src/static_lut.rs",
+     "            let ret = self.lut;\n            self.ok = next_inplace(N, self.lut.table.as_mut());\n            Some(ret)",
+     "            let ret = self.lut;\n            self.ok = next_inplace(N, self.lut.table.as_mut());\n            if !self.ok && N > 4 {\n                return None;\n            }\n            Some(ret)"))
